@@ -24,7 +24,7 @@ import (
 // ---- (a) restart histories -------------------------------------------------------------------------------
 
 var c20Alphabet = []string{
-	"restart:same", "restart:values", "restart:plus-outlet", "pair", "remove-pairing", "add-pairing", "app-change", "restart:same-pin2", "re-add-pairing",
+	"restart:same", "restart:values", "restart:plus-outlet", "pair", "remove-pairing", "add-pairing", "app-change", "restart:same-pin2", "re-add-pairing", "remove-unknown-pairing",
 }
 
 type c20Model struct {
@@ -175,7 +175,7 @@ func c20Exec(c *fw.Ctx, hist []string) bool {
 			k.Close()
 			m.pairings[id.ID] = true
 			m.controllers[id.ID] = id
-		case ev == "remove-pairing" || ev == "add-pairing" || ev == "re-add-pairing":
+		case ev == "remove-pairing" || ev == "add-pairing" || ev == "re-add-pairing" || ev == "remove-unknown-pairing":
 			var admin refctl.Identity
 			found := false
 			for n := range m.pairings {
@@ -194,6 +194,9 @@ func c20Exec(c *fw.Ctx, hist []string) bool {
 			if ev == "remove-pairing" {
 				body = refctl.TLVEncode(refctl.T(refctl.TagState, []byte{1}), refctl.T(refctl.TagMethod, []byte{4}), refctl.T(refctl.TagIdentifier, []byte(admin.ID)))
 				delete(m.pairings, admin.ID)
+			} else if ev == "remove-unknown-pairing" {
+				// removing a pairing that is not stored succeeds (the specification says so) and changes nothing
+				body = refctl.TLVEncode(refctl.T(refctl.TagState, []byte{1}), refctl.T(refctl.TagMethod, []byte{4}), refctl.T(refctl.TagIdentifier, []byte("NOBODY-"+fmt.Sprint(i))))
 			} else if ev == "re-add-pairing" {
 				// an existing pairing is added again (an update): the set of pairings does not change
 				body = refctl.TLVEncode(refctl.T(refctl.TagState, []byte{1}), refctl.T(refctl.TagMethod, []byte{3}), refctl.T(refctl.TagIdentifier, []byte(admin.ID)), refctl.T(refctl.TagPublicKey, admin.Pub), refctl.T(refctl.TagPermission, []byte{1}))
